@@ -113,7 +113,15 @@ impl<'a> Exec<'a> {
             journal: Mutex::new(Vec::new()),
             nev: AtomicU64::new(0),
             actors: (0..MAX_ACTORS)
-                .map(|_| AStat { pre_fail: AtomicBool::new(false), post_fail: AtomicBool::new(false), gates: Default::default(), gauge: AtomicI32::new(0) })
+                .map(|_| AStat {
+                    pre_fail: AtomicBool::new(false),
+                    post_fail: AtomicBool::new(false),
+                    pre_stop_fail: AtomicBool::new(false),
+                    post_stop_fail: AtomicBool::new(false),
+                    hold_drop: AtomicBool::new(false),
+                    gates: Default::default(),
+                    gauge: AtomicI32::new(0),
+                })
                 .collect(),
             msgs: (0..MAX_MSGS).map(|_| MStat { gate: Gate::new(false), fail: AtomicBool::new(false) }).collect(),
             max_gauge: AtomicI32::new(0),
@@ -258,6 +266,11 @@ impl<'a> Exec<'a> {
             self.ra.push(RActor::empty(by));
         }
         for a in 0..self.model.actors.len() {
+            // the registry refused a spawn the model lets through: nothing further will happen
+            if self.ra[a].spawn == SpawnObs::NameTaken && self.model.actors[a].spawn != SpawnExp::NameTaken {
+                self.mismatch = true;
+                return None;
+            }
             let obs = self.obs_journal(a);
             let exp = &self.model.actors[a].journal;
             let n = obs.len().min(exp.len());
@@ -385,6 +398,24 @@ impl<'a> Exec<'a> {
                     SpawnObs::Other(x) => x.clone(),
                 };
                 let who = if ma.spawned_by_supervisor { "respawn" } else { "spawn" };
+                // the statement's "free again after ... failed start", named on its own
+                let after_failed_start = obs == SpawnObs::NameTaken
+                    && ma.spec.name.is_some()
+                    && self.model.actors.iter().enumerate().any(|(b, x)| b != a && x.spec.name == ma.spec.name && matches!(x.phase, Phase::DropHeld | Phase::StartFailed))
+                    && !self.model.actors.iter().enumerate().any(|(b, x)| b != a && x.spec.name == ma.spec.name && x.live());
+                if after_failed_start {
+                    let held = self.model.actors.iter().any(|x| x.spec.name == ma.spec.name && x.phase == Phase::DropHeld);
+                    self.vio(
+                        "registry:name-not-free-after-failed-start",
+                        format!(
+                            "{who} of actor {a} ({}) was refused with NameTaken although the only earlier holders of the name failed to start and their spawners have already received SpawnError::Start{}; the reference model (a name is free again after a failed start) expects {exp:?}",
+                            ma.spec.code(),
+                            if held { " (the failed actor's value is still alive: its Drop is parked at the harness gate, i.e. the worker-side task has not finished yet)" } else { "" }
+                        ),
+                    );
+                    self.aborted = true;
+                    continue;
+                }
                 self.vio(
                     &format!("{who}:expected={}:observed={}", cls(&exp), cls(&obs)),
                     format!("{who} of actor {a} ({}) resolved as {obs:?}, the reference model (registry: name -> reserved|active) expects {exp:?}", ma.spec.code()),
@@ -560,7 +591,13 @@ impl<'a> Exec<'a> {
                         _ => {}
                     }
                 }
-                EvK::HookEnd(..) | EvK::HandleEnd(..) | EvK::Dropped => {
+                EvK::ValueDropBegin => {
+                    if open.is_some() {
+                        return Some(("not-serial".into(), format!("the actor value was dropped while {open:?} was still active")));
+                    }
+                    open = Some(*e);
+                }
+                EvK::HookEnd(..) | EvK::HandleEnd(..) | EvK::Dropped | EvK::ValueDropEnd => {
                     if open.is_none() {
                         return Some(("not-serial".into(), format!("{e:?} without a begin")));
                     }
